@@ -12,6 +12,10 @@ Proof.
   inversion HP; subst. constructor; auto.
 Qed.
 
+Lemma Forall2_impl' : forall {T U} (R Q : T -> U -> Prop) l l',
+  (forall a b, R a b -> Q a b) -> Forall2 R l l' -> Forall2 Q l l'.
+Proof. intros T U R Q l l' H HR. induction HR; constructor; auto. Qed.
+
 Lemma binds_fold_ext : forall {A B} d (l : list (stmt A)) (l' : list (stmt B)),
   Forall2 (fun a b => forall G0, binds_s d G0 b = binds_s d G0 a) l l' ->
   forall G0, fold_left (binds_s d) l' G0 = fold_left (binds_s d) l G0.
@@ -75,19 +79,19 @@ Proof.
   apply map_res_ok in E1. apply map_res_ok in E2.
   rewrite (binds_fold_ext (c_dflt c) b1 b2).
   - rewrite (binds_fold_ext (c_dflt c) (p_body p) b1); [reflexivity|].
-    eapply Forall2_impl; [|exact E1]. intros a b Hab. eapply pstmt_binds; eauto.
-  - eapply Forall2_impl; [|exact E2]. intros a b Hab. eapply wstmt_binds; eauto.
+    eapply Forall2_impl'; [|exact E1]. intros a b Hab G0. eapply pstmt_binds. exact Hab.
+  - eapply Forall2_impl'; [|exact E2]. intros a b Hab G0. eapply wstmt_binds. exact Hab.
 Qed.
 
 (* the environment of a procedure carries resolved precisions only *)
 Lemma binds_s_res : forall {A} d, d <> PR -> forall (s : stmt A) G, env_res G -> env_res (binds_s d G s).
 Proof.
   intros A d Hd s. induction s using stmt_ind'; intros G HG; simpl; try assumption.
-  - assert (K : forall l, Forall (fun s => forall G, env_res G -> env_res (binds_s d G s)) l ->
+  - assert (K : forall (l : list (stmt A)), Forall (fun s => forall G, env_res G -> env_res (binds_s d G s)) l ->
                 forall G, env_res G -> env_res (fold_left (binds_s d) l G)).
     { intros l Hl. induction Hl; intros G0 HG0; simpl; [assumption|]. apply IHHl. apply H1. assumption. }
     apply K; [assumption|]. apply K; assumption.
-  - assert (K : forall l, Forall (fun s => forall G, env_res G -> env_res (binds_s d G s)) l ->
+  - assert (K : forall (l : list (stmt A)), Forall (fun s => forall G, env_res G -> env_res (binds_s d G s)) l ->
                 forall G, env_res G -> env_res (fold_left (binds_s d) l G)).
     { intros l Hl. induction Hl; intros G0 HG0; simpl; [assumption|]. apply IHHl. apply H0. assumption. }
     apply K; assumption.
@@ -99,7 +103,7 @@ Qed.
 Lemma env_of_res : forall {A} d (p : proc A), d <> PR -> env_res (env_of d p).
 Proof.
   intros A d p Hd. unfold env_of.
-  assert (K : forall l G, env_res G -> env_res (fold_left (binds_s d) l G)).
+  assert (K : forall (l : list (stmt A)) G, env_res G -> env_res (fold_left (binds_s d) l G)).
   { induction l as [|s l IH]; intros G HG; simpl; [assumption|]. apply IH. apply binds_s_res; assumption. }
   apply K.
   assert (K2 : forall l G, env_res G -> env_res (fold_left (arg_binds d) l G)).
@@ -135,7 +139,7 @@ Section PrecAccept.
         destruct f as [|fx fp fm fsh]; simpl; [reflexivity|].
         specialize (H 0 (AWn x n) fx fp fm fsh x b eq_refl eq_refl eq_refl L).
         unfold compat_prec. destruct fsh; simpl; rewrite H; apply prec_eqb_refl.
-      + rewrite andb_true_r. unfold compat_prec. simpl. reflexivity.
+      + reflexivity.
     - apply IH. intros k a' fx fp fm fsh y b Ha Hf. apply (H (S k) a' fx fp fm fsh y b); assumption.
   Qed.
 
@@ -248,7 +252,7 @@ Section MemAccept.
     - destruct (all_res (mstmt M sigs G) b1) as [[]|] eqn:M1; simpl in Hm; [|discriminate].
       destruct (all_res (gstmt M G) b1) as [[]|] eqn:G1; simpl in Hg; [|discriminate].
       rewrite forallb_app, !forallb_flat_map.
-      assert (K : forall b, Forall (fun s => mstmt M sigs G s = Ok tt -> gstmt M G s = Ok tt ->
+      assert (K : forall (b : list (stmt A)), Forall (fun s => mstmt M sigs G s = Ok tt -> gstmt M G s = Ok tt ->
                                               forallb (macc_ok M G) (macc_s sigs s) = true) b ->
                   all_res (mstmt M sigs G) b = Ok tt -> all_res (gstmt M G) b = Ok tt ->
                   forallb (fun x => forallb (macc_ok M G) (macc_s sigs x)) b = true).
@@ -296,13 +300,13 @@ Proof.
   - destruct (map_res (wstmt sigs) b1) as [c1|] eqn:E1; simpl in H'; [|discriminate].
     destruct (map_res (wstmt sigs) b2) as [c2|] eqn:E2; simpl in H'; [|discriminate].
     inversion H'; subst. simpl. apply map_res_ok in E1, E2.
-    assert (K : forall b c, Forall (fun s => forall s', wstmt sigs s = Ok s' -> win_ok_s sigs s' = true) b ->
+    assert (K : forall (b c : list (stmt A)), Forall (fun s => forall s', wstmt sigs s = Ok s' -> win_ok_s sigs s' = true) b ->
                 Forall2 (fun a b => wstmt sigs a = Ok b) b c -> forallb (win_ok_s sigs) c = true).
     { intros b c Hb Hc. induction Hc; [reflexivity|]. inversion Hb; subst. simpl. rewrite (H4 _ H1). simpl. auto. }
     rewrite (K _ _ H E1), (K _ _ H0 E2). reflexivity.
   - destruct (map_res (wstmt sigs) b) as [c1|] eqn:E1; simpl in H'; [|discriminate].
     inversion H'; subst. simpl. apply map_res_ok in E1.
-    assert (K : forall b c, Forall (fun s => forall s', wstmt sigs s = Ok s' -> win_ok_s sigs s' = true) b ->
+    assert (K : forall (b c : list (stmt A)), Forall (fun s => forall s', wstmt sigs s = Ok s' -> win_ok_s sigs s' = true) b ->
                 Forall2 (fun a b => wstmt sigs a = Ok b) b c -> forallb (win_ok_s sigs) c = true).
     { intros b0 c Hb Hc. induction Hc; [reflexivity|]. inversion Hb; subst. simpl. rewrite (H3 _ H0). simpl. auto. }
     apply (K _ _ H E1).
